@@ -11,8 +11,10 @@
                isCompileTimeComputable compared one by one                             (tie C)
  4 search      direct oracle on the implementation: contexts (every kind of declaration and every dimension for array
                sizes) x write forms -> must be rejected, write-free twin -> must be accepted; writers whose parameters /
-               locals carry the name of the global they write; random programs (with such name clashes) with an
-               independent may-write computation
+               locals carry the name of the global they write; writers whose only write to a global sits inside the target
+               of an assignment to one of their locals (index, condition of an inline-if); synchronisations whose channel is
+               an inline-if over channels / channel arrays; random programs (with such name clashes and such targets) with
+               an independent may-write computation
 """
 import os
 import re
@@ -48,6 +50,7 @@ def twin_expr(cx, read="(w + 1)"):
 def gen_matrix(ctx):
     r = ctx.rng
     ctxs = G.contexts()
+    ctxs.update(conditional_sync_contexts())
     cases = []
     n = [0]
 
@@ -106,6 +109,13 @@ def gen_matrix(ctx):
         for shape, pre, e, tpre, te in (sf if not light else r.sample(sf, 3)):
             add(cn, e, pre, "reject", "ctx=%s/shadow/%s" % (cn, shape))
             add(cn, te, tpre, "accept", "ctx=%s/twin/shadow/%s" % (cn, shape))
+        # G. the writer assigns to one of its own locals / value parameters only, and the write to the global sits INSIDE that target
+        #    (an index, the condition of an inline-if): removing the function's locals from its may-write set removes the assigned
+        #    object, the operands of the target still have to be searched
+        lf = local_target_forms(r, cx, ctx.thorough and not light)
+        for shape, pre, e, tpre, te in (lf if not light else r.sample(lf, 4)):
+            add(cn, e, pre, "reject", "ctx=%s/local-target/%s" % (cn, shape))
+            add(cn, te, tpre, "accept", "ctx=%s/twin/local-target/%s" % (cn, shape))
     # E. controls: the same writes where side effects are allowed (update label, function body) are accepted
     wrf = G.writer_function("wr", "nested-loops", "w = 1", False)
     for i, asg in enumerate(["w = 1", "w++, x = w", "arr[x] = wr()", "st.a += 1, wr()", "x = (bb ? w : x) = 2"]):
@@ -193,6 +203,78 @@ def shadow_forms(r, cx):
     return out
 
 
+# targets whose assigned object is local to the function `lt`; %(I)s = an int expression inside the target (the twin reads there)
+LOCAL_TARGETS = {
+    "local-array-index": ("", "int la[3];", "la[%(I)s]"),
+    "local-matrix-1st-index": ("", "int lm[3][3];", "lm[%(I)s][0]"),
+    "local-matrix-2nd-index": ("", "int lm[3][3];", "lm[0][%(I)s]"),
+    "nested-index": ("", "int la[3];", "la[la[%(I)s]]"),
+    "value-array-parameter-index": ("int pa[3]", "", "pa[%(I)s]"),
+    "local-struct-field-array-index": ("", "struct { int f[3]; int g; } ls;", "ls.f[%(I)s]"),
+    "local-struct-array-index-field": ("", "struct { int f; int g; } lsa[3];", "lsa[%(I)s].g"),
+    "inline-if-condition": ("", "int l2 = 0;", "(%(I)s > 0 ? loc : l2)"),
+    "inline-if-alternative-index": ("", "int la[3];", "(loc > 0 ? la[%(I)s] : loc)"),
+}
+# writes placed inside the target: (name, text, declarations it needs)
+INNER_WRITES = [("post++", "w++", ""), ("pre--", "--w", ""), ("assign", "(w = 1)", ""), ("op-assign", "(w += 1)", ""),
+                ("array-element", "arr[1]++", ""), ("struct-field", "(st.a = 1)", ""),
+                ("call", "setw()", "int setw() { w = 1; return 1; }\n"),
+                ("call-chain", "sw2()", "int setw() { w = 1; return 1; }\nint sw2() { return setw(); }\n"),
+                ("reference-argument", "setr(w)", "int setr(int &r) { r = 1; return 1; }\n")]
+
+
+def local_target_forms(r, cx, everything=False):
+    """(shape, declarations, expression, twin declarations, twin expression): a function whose only write to a non-local sits inside
+    the target of an assignment (every operator, ++/--) to an object local to it; called directly or through another function, the
+    assignment in a random statement form.  The twins read at the same place."""
+    out = []
+    rd = "C" if cx["ctc"] else "w"
+    all_ops = G.ASSIGN_OPS + [nm for _, nm in POST_PRE]
+    forms = [f for f in G.STMT_FORMS if f not in ("local-init", "return")]
+
+    def fn(tn, inner, op, form, twin):
+        params, ldecl, target = LOCAL_TARGETS[tn]
+        stmt = G.STMT_FORMS[form] % {"W": direct_write(target % {"I": rd if twin else inner}, op)}
+        return "int lt(%s) { int loc = 0; %s %s return 1; }" % (params, ldecl, stmt)
+
+    def one(tn, iw, op, form, chain):
+        iname, inner, idecl = iw
+        arg = ("CA" if cx["ctc"] else "arr") if LOCAL_TARGETS[tn][0] else ""
+        pre, tpre = idecl + fn(tn, inner, op, form, False), fn(tn, inner, op, form, True)
+        call = "lt(%s)" % arg
+        if chain:
+            pre += "\nint lt2() { return %s; }" % call
+            tpre += "\nint lt2() { return %s; }" % call
+            call = "lt2()"
+        out.append(("%s/%s/%s/%s%s" % (tn, iname, op, form, "/through-caller" if chain else ""), pre, call, tpre, call))
+
+    for tn in LOCAL_TARGETS:
+        for iw in (INNER_WRITES if everything else r.sample(INNER_WRITES, 3)):
+            one(tn, iw, r.choice(all_ops), r.choice(forms), r.random() < 0.3)
+    # every operator once, on a random target with a random inner write
+    for op in all_ops:
+        one(r.choice(list(LOCAL_TARGETS)), r.choice(INNER_WRITES), op, "expr", False)
+    return out
+
+
+def conditional_sync_contexts():
+    """Synchronisations whose channel expression is not an identifier followed by indices: an inline-if over channels, or over channel
+    arrays that is then indexed.  The whole label has to be side-effect free -- the condition, and the indices inside either
+    alternative, not just the indices of the outermost array layers.  (`sampled`: as for the array dimensions in c11gen.contexts)"""
+    c = {}
+    more = "chan ch2; chan chb[4];"
+    for name, sync in (("condition", "(%s > 0 ? ch : ch2)!"), ("condition-receive", "(%s > 0 ? ch : ch2)?"),
+                       ("condition-element-alternatives", "(%s > 0 ? cha[0] : chb[1])!"),
+                       ("condition-arrays-then-index", "(%s > 0 ? cha : chb)[1]!"),
+                       ("index-in-then-alternative", "(bb ? cha[%s] : ch2)!"), ("index-in-else-alternative", "(bb ? ch : chb[%s])?"),
+                       ("index-after-inline-if", "(bb ? cha : chb)[%s]!"),
+                       ("nested-condition", "(bb ? (%s > 0 ? ch : ch2) : cha[0])!"),
+                       ("nested-alternative-index", "(bb ? (x > 0 ? ch : chb[%s]) : ch2)?")):
+        mk = (lambda sync: (lambda e: dict(sync=sync % e, gdecl_post=more)))(sync)
+        c["sync-inline-if-" + name] = dict(mk=mk, allowed=[G.SE % "Synchronisation"], ctc=False, sampled=True)
+    return c
+
+
 # ------------------------------------------------------------------------------------------------------------------
 # template-level scope: writer functions and written variables local to the template
 
@@ -204,6 +286,7 @@ def gen_template_scope(ctx):
         "guard": dict(f=lambda e: dict(guard="%s == 1" % e), allowed=[G.SE % "Guard"]),
         "invariant": dict(f=lambda e: dict(inv="%s == 1" % e), allowed=[G.SE % "Invariant"]),
         "sync-index": dict(f=lambda e: dict(sync="cha[%s]!" % e), allowed=[G.SE % "Synchronisation"]),
+        "sync-inline-if-condition": dict(f=lambda e: dict(sync="(%s > 0 ? ch : cha[1])!" % e), allowed=[G.SE % "Synchronisation"]),
         "select-domain": dict(f=lambda e: dict(select="i : int[0, %s]" % e), allowed=[G.NC]),
         "init-template": dict(f=lambda e: dict(tdecl_post="int y = %s;" % e), allowed=[G.NC, G.SE % "Initialiser"]),
         "array-size-template": dict(f=lambda e: dict(tdecl_post="int z[%s];" % e), allowed=[G.NC]),
@@ -331,7 +414,7 @@ class RandProg:
             params.append(("p%d" % p, mode))
         st = {"w": set(), "wp": set(), "rd": set(), "refpass": False, "locals": ["l0", "l1"], "params": params, "i": i}
         st["locals"] = ["l0"]
-        body = "int l0 = 0; int l1 = %s; " % self.rexpr(st, 1, allow_call=False)
+        body = "int l0 = 0; int l1 = %s; int la[3]; " % self.rexpr(st, 1, allow_call=False)
         st["locals"] = ["l0", "l1"]
         for _ in range(r.randint(1, 4)):
             body += self.stmt(st, 2) + " "
@@ -415,6 +498,9 @@ class RandProg:
             st["w"].add(root)
         elif k < 0.75 or not st["params"]:
             txt = r.choice(st["locals"])
+            if st["i"] > 0 and r.random() < 0.25:
+                # the assigned object is a local, the target itself calls: whatever the callee writes is written here
+                txt = "(%s > 0 ? l0 : l1)" % self.call(st, 1) if r.random() < 0.5 else "la[%s]" % self.call(st, 1)
         else:
             own = r.randrange(len(st["params"]))
             pn, m = st["params"][own]
@@ -459,7 +545,8 @@ def gen_random_programs(ctx):
     r = ctx.rng
     cases = []
     nprog = 800 if not ctx.thorough else 6000
-    se = {"guard": G.SE % "Guard", "invariant": G.SE % "Invariant", "sync": G.SE % "Synchronisation", "query": G.SE % "Property"}
+    se = {"guard": G.SE % "Guard", "invariant": G.SE % "Invariant", "sync": G.SE % "Synchronisation",
+          "sync-inline-if": G.SE % "Synchronisation", "query": G.SE % "Property"}
     for pi in range(nprog):
         prog = RandProg(r, r.randint(2, 7), shadow=0.3)
         # one context per model: call a random function with value arguments / lvalue arguments
@@ -476,7 +563,7 @@ def gen_random_programs(ctx):
             else:
                 args.append(r.choice(["1", "CC", "g0"]))
         e = "%s(%s)" % (name, ", ".join(args))
-        where = r.choice(["guard", "invariant", "sync", "query"])
+        where = r.choice(["guard", "invariant", "sync", "sync-inline-if", "query"])
         if wr:
             expect, allowed = "reject", [se[where]]
         elif not refpass:
@@ -491,6 +578,8 @@ def gen_random_programs(ctx):
             kw["inv"] = "%s >= 0" % e
         elif where == "sync":
             kw["sync"] = "cha[%s]!" % e
+        elif where == "sync-inline-if":
+            kw["sync"] = "(%s >= 0 ? cha[0] : cha[1])!" % e
         else:
             queries = ["A[] %s >= 0" % e]
         text, kind = (G.xml_model(**kw), "xml") if pi % 4 else (G.xta_model(**kw), "xta")
